@@ -216,6 +216,24 @@ impl SwiftField for Field25AccountIdentification {
         }
     }
 
+    fn parse_with_variant(
+        value: &str,
+        variant: Option<&str>,
+        _field_tag: Option<&str>,
+    ) -> crate::Result<Self>
+    where
+        Self: Sized,
+    {
+        match variant {
+            Some("P") => Ok(Field25AccountIdentification::P(Field25P::parse(value)?)),
+            Some("") => Ok(Field25AccountIdentification::NoOption(
+                Field25NoOption::parse(value)?,
+            )),
+            // No variant specified, fall back to default parse behavior
+            _ => Self::parse(value),
+        }
+    }
+
     fn to_swift_string(&self) -> String {
         match self {
             Field25AccountIdentification::NoOption(field) => field.to_swift_string(),
